@@ -186,7 +186,7 @@ def gen_valid(rng):
 MUTATIONS = ["drop_step", "orphan_consumer", "extra_producer", "second_stop", "second_start",
              "accept_stop", "cover_handler", "dup_claim", "dup_claim_same", "unknown_target", "bad_maxrec",
              "second_wildcard", "island", "dead_cycle", "skip_flags", "hr_produced", "sf_consumer",
-             "no_stop", "no_start", "empty", "self_loop", "dup_accept"]
+             "no_stop", "no_start", "empty", "self_loop", "dup_accept", "skipped_island"]
 
 
 def mutate(rng, g, tags):
@@ -240,6 +240,13 @@ def mutate(rng, g, tags):
             g.append(mkstep(n, [a], [b], sr=rng.random() < 0.3, sd=rng.random() < 0.3))
             g.append(mkstep(n + 1, [b], [a, stops[0]] if rng.random() < 0.5 else [a],
                             sr=rng.random() < 0.3, sd=rng.random() < 0.3))
+            n += 2
+        elif m == "skipped_island":
+            # a closed island that never reaches an output event; only the reachability check is waived for it (per step),
+            # so it must still be rejected as a dead end
+            a, b = rng.sample(PLAIN, 2)
+            g.append(mkstep(n, [a], [b], sr=True, sd=False))
+            g.append(mkstep(n + 1, [b], [a], sr=True, sd=False))
             n += 2
         elif m == "dead_cycle" and normal:
             a = rng.choice(PLAIN)
